@@ -3,6 +3,7 @@ CONSTANTS
   Cfg0 <- MCCfg
   MaxCycles = @MAXCYCLES@
   MaxOps = @MAXOPS@
+  MaxFault = @MAXFAULT@
 VIEW View
 ACTION_CONSTRAINT EmitEdge
 PROPERTY StepOK
